@@ -62,7 +62,7 @@ const rule = "plans of mysql/postgres/sqlite.DefaultPlan over the feature-rich b
 	"non-trivial = >=1 injected string containing a hostile character; distinct key = (dialect, formatter, delimiter, scenario, hostile-class set, sites)"
 
 var hostile = []string{"plain", "it's", `say "hi"`, `one " dq`, `\" escaped dq`, "end quote'", `"`, "'", "back`tick", "semi;colon", "semi;\ncolon;", "dash -- dash", "/* open", "close */", "# hash", "$$ dollars $$", `back\slash`, `trailing\`,
-	"new\nline", "DELIMITER $$", "GO", "-- atlas:delimiter ;;", "atlas:delimiter x", " atlas:txmode none", "atlas:checkpoint", "(paren", "paren)", "two\n\nnewlines", "tab\there", "ünï", "%s%d", "';DROP TABLE x;--"}
+	"new\nline", "DELIMITER $$", "GO", "-- atlas:delimiter ;;", "atlas:delimiter x", " atlas:txmode none", "atlas:checkpoint", "countdown", "Downloads", "StatementEnd", "-- +goose Down", "-- migrate:down", "(paren", "paren)", "two\n\nnewlines", "tab\there", "ünï", "%s%d", "';DROP TABLE x;--"}
 
 func classOf(s string) string {
 	var cs []string
